@@ -181,7 +181,8 @@ def _collect_function(expr: SymFunction) -> tuple[Expr, Dimension]:
 
 def _collect_derivative(expr: Derivative) -> tuple[Expr, Dimension]:
     func, *args = expr.args
-    _, dim = collect_expression_and_dimension(func.func)
+    # NOTE: the differentiated expression is not necessarily an applied function
+    _, dim = collect_expression_and_dimension(func)
 
     expr_ = func
     for arg, n in args:
